@@ -164,6 +164,11 @@ package absnfs
 
 //@ func PerOperationLimiter.cleanup
 //@ prop C18
+// cleanup forgets a client's buckets only when the flag allFull survived the scan, and the scan moves past a
+// bucket only if that bucket is FULL with respect to the burst of ITS operation type (not its rate, not another
+// type's burst): back-edge clause on the inner loop, in terms of the bucket's state at the clock reading Tokens() took
+//@ loop 2 backedge [moves-past-full-buckets-only] after limiter : tbRefilled(limiter, clock) >= real(ite(has(pol.bursts, opType), pol.bursts[opType], 0))
+//@ callassert builtin.delete : [forgets-only-after-full-scan] allFull
 //@ requires polInv(pol)
 //@ modifies mapof(pol.limiters), clock, locks
 //@ ensures [survivors] forall(k, string, has(pol.limiters, k) ==> old(has(pol.limiters, k)) && pol.limiters[k] == old(pol.limiters[k]), pol.limiters[k])
